@@ -315,6 +315,7 @@ def check_C15(ctx):
 
 def check_C03(ctx):
     t = ctx.tier
+    proved = vlib.tlaps_prove(ctx, "proofs/ImportTableProof.tla")
     res = run_family(ctx, "tracker", "MC_ImportTracker", ["ImportTracker_gen_%s.cfg" % t, "ImportTracker_gen_%s2.cfg" % t], "ImportTrackerTrace",
                      rand_n=4000 if ctx.quick() else 60000, a_cfgs=["ImportTracker_A.cfg"], shard=5000)
     fails = vlib.collect_failures(res["trace"], res["bad"], "tracker", only_prefix="C03")
@@ -330,10 +331,13 @@ def check_C03(ctx):
                 "digit-leading segments, punctuation-only differences, std name clash) plus the file's own package, closed by one reference of each kind "
                 "(Ref, PkgExpose, go/types type literal, generic instantiation string); each history is rendered through one raw namer / import tracker with the "
                 "full import table logged after every step; ImportTrackerTrace.tla binds the logged names and checks exactness, stability, validity, uniqueness, "
-                "the printed qualifier and ask-twice. Loop A: the candidate search with fall-back is total for all addition orders (and not without it). "
+                "the printed qualifier and ask-twice. Loop A: the candidate search with fall-back is total for all addition orders (and not without it); "
+                "proofs/ImportTableProof.tla proves with TLAPS, for unbounded path / name universes, that a table which binds each new path to some unused valid name stays "
+                "functional, injective, valid and only grows. "
                 "Random path sets from a path grammar beyond. evaluations = reference steps; non-trivial = histories with >= 2 distinct paths.",
         "exhaustive": True,
         "histories": len(tr),
+        "tlaps_obligations_discharged": proved,
         "genfile_lines": gf["lines"],
         "samples": [{"case": r["case"], "obs": r["obs"]} for r in tr[:: max(1, len(tr) // 3)][:3]],
         "abstract_cases": res["n_cases"],
